@@ -39,10 +39,14 @@ func (p *berTLVPrefixer) EncodeLength(maxLen, dataLen int) ([]byte, error) {
 		return nil, fmt.Errorf(fieldLengthIsLargerThanMax, dataLen, maxLen)
 	}
 
-	buf := big.NewInt(int64(dataLen)).Bytes()
-	if dataLen <= 127 {
-		return buf, nil
+	if dataLen < 0 {
+		return nil, fmt.Errorf(invalidLength, dataLen)
 	}
+	// short form: a single byte, also for a zero length
+	if dataLen <= 127 {
+		return []byte{byte(dataLen)}, nil
+	}
+	buf := big.NewInt(int64(dataLen)).Bytes()
 	return append([]byte{setMSB(uint8(len(buf)))}, buf...), nil
 }
 
